@@ -101,10 +101,11 @@ func main() {
 	}
 }
 
-// writeFile writes data to a temporary file next to path and renames it to path afterwards,
+// writeFile writes data to a temporary file in the directory of path and renames it to path afterwards,
 // to make sure a failing write is reported and never leaves a partial output file behind.
 func writeFile(path string, data []byte) error {
-	tmpPath := path + ".tmp"
+	// The temporary file gets a short name of its own: the output name plus a suffix could exceed the file name limit.
+	tmpPath := filepath.Join(filepath.Dir(path), fmt.Sprintf(".tsh-%d.tmp", os.Getpid()))
 	err := os.WriteFile(tmpPath, data, 0777)
 
 	if err == nil {
